@@ -91,8 +91,11 @@ def case(g, tier, ci):
 
     def pick_name(b):
         k = r.random()
-        if names[b] and k < 0.8:
+        if names[b] and k < 0.72:
             return r.choice(names[b])
+        if names[b] and k < 0.8:
+            # an existing base name with a number that (most likely) no sibling carries: unknown, hence refused
+            return basename(r.choice(names[b])) + str(r.choice([1, 3, 7, 12]))
         if k < 0.9:
             return r.choice(NAME_POOL)
         return r.choice(["nosuch", "a7", ""])
